@@ -32,5 +32,5 @@ CHECK = {
             "concurrent interleavings are sampled by the Go scheduler (schedule-dependent defects may need several rounds to show)",
         ],
         "required_classes": {"quick": ["prune", "overwrite-live", "drop-multiple", "all-items<=5%", "item>5%", "capacity-0",
-                                       "conc-round>=2-puts-cross-capacity", "goroutines=32", "rec-over-reports"]},
+                                       "conc-round>=2-puts-cross-capacity", "goroutines=32", "rec-over-reports", "pass-over-more-than-a-thousand-tiny-far-items"]},
     }
